@@ -92,6 +92,15 @@ func classes(rec *evid.Rec, prefix string, in *vgen.Info) {
 	if in.RecursiveType {
 		rec.Class(prefix + "type/recursive")
 	}
+	if in.DictMixedSignKeys {
+		rec.Class(prefix + "dict/keys-mixed-sign")
+	}
+	if in.DictMixedLengthKeys {
+		rec.Class(prefix + "dict/keys-mixed-encoded-length")
+	}
+	if in.DictMixedPathDomains {
+		rec.Class(prefix + "dict/path-keys-mixed-domain")
+	}
 	d := in.Depth
 	if d > 6 {
 		d = 6
